@@ -265,3 +265,37 @@ package ckks
 //@   case len(op0.Value) == 2 && len(op1.Value) == 3 && len(opOut.Value) == 3
 //@   case len(op0.Value) == 3 && len(op1.Value) == 3 && len(opOut.Value) == 3
 //@   ensures !isnil(err)
+
+// ---- ciphertext (+, -, *) PLAINTEXT at equal scales: the plaintext takes part in the first component only
+// ---- (sum / difference), respectively multiplies every component; the other components are copied
+//@ afunc Evaluator.Add#pt
+//@   property C06
+//@   dyn op1 *rlwe.Plaintext
+//@   case len(op0.Value) == 2 && len(op1.Element.Value) == 1 && len(opOut.Value) == 2
+//@   case len(op0.Value) == 3 && len(op1.Element.Value) == 1 && len(opOut.Value) == 2
+//@   case len(op0.Value) == 2 && len(op1.Element.Value) == 1 ; alias opOut = op0
+//@   requires old(cmpval(op0.MetaData.PlaintextMetaData.Scale, op1.Element.MetaData.PlaintextMetaData.Scale)) == 0
+//@   requires isntt(op0.Value[0]) && isntt(op0.Value[1]) && isntt(op1.Element.Value[0]) && mexp(op0.Value[0]) == 0 && mexp(op0.Value[1]) == 0 && mexp(op1.Element.Value[0]) == 0
+//@   ensures implies(isnil(err), val(opOut.Value[0]) == old(val(op0.Value[0])) + old(val(op1.Element.Value[0])) && val(opOut.Value[1]) == old(val(op0.Value[1])))
+//@   ensures implies(isnil(err), len(opOut.Value) == old(len(op0.Value)))
+
+//@ afunc Evaluator.Sub#pt
+//@   property C06
+//@   dyn op1 *rlwe.Plaintext
+//@   case len(op0.Value) == 2 && len(op1.Element.Value) == 1 && len(opOut.Value) == 2
+//@   case len(op0.Value) == 3 && len(op1.Element.Value) == 1 && len(opOut.Value) == 2
+//@   case len(op0.Value) == 2 && len(op1.Element.Value) == 1 ; alias opOut = op0
+//@   requires old(cmpval(op0.MetaData.PlaintextMetaData.Scale, op1.Element.MetaData.PlaintextMetaData.Scale)) == 0
+//@   requires isntt(op0.Value[0]) && isntt(op0.Value[1]) && isntt(op1.Element.Value[0]) && mexp(op0.Value[0]) == 0 && mexp(op0.Value[1]) == 0 && mexp(op1.Element.Value[0]) == 0
+//@   ensures implies(isnil(err), val(opOut.Value[0]) == old(val(op0.Value[0])) - old(val(op1.Element.Value[0])) && val(opOut.Value[1]) == old(val(op0.Value[1])))
+//@   ensures implies(isnil(err), len(opOut.Value) == old(len(op0.Value)))
+
+//@ afunc Evaluator.Mul#pt
+//@   property C06
+//@   dyn op1 *rlwe.Plaintext
+//@   case len(op0.Value) == 2 && len(op1.Element.Value) == 1 && len(opOut.Value) == 2
+//@   case len(op0.Value) == 2 && len(op1.Element.Value) == 1 && len(opOut.Value) == 3
+//@   case len(op0.Value) == 2 && len(op1.Element.Value) == 1 ; alias opOut = op0
+//@   requires isntt(op0.Value[0]) && isntt(op0.Value[1]) && isntt(op1.Element.Value[0]) && mexp(op0.Value[0]) == 0 && mexp(op0.Value[1]) == 0 && mexp(op1.Element.Value[0]) == 0
+//@   ensures implies(isnil(err), len(opOut.Value) == 2)
+//@   ensures implies(isnil(err), val(opOut.Value[0]) == old(val(op0.Value[0])) * old(val(op1.Element.Value[0])) && val(opOut.Value[1]) == old(val(op0.Value[1])) * old(val(op1.Element.Value[0])))
